@@ -1,6 +1,7 @@
 """C20 extension health hysteresis: proof (Gpa.Props.C20) + correspondence with the real
 StatusState / ServiceState + executable oracle of the property on the implementation's outputs."""
 import itertools
+import shutil
 import vlib
 
 SPEC_THR = 20
@@ -135,6 +136,73 @@ def oracle_notes(chk, session, outs):
     return True
 
 
+def monitor_functions(chk, rng, binp, dok):
+    """the functions through which the monitor loop itself feeds the health automaton and publishes its verdict (private to
+    service_main; the farm's copy of that file declares a child module that calls them): a read of the agent's status file whose
+    version agrees with the extension's is one successful observation, a version mismatch or any outcome of the update command one
+    failed observation; what they publish is what the automaton says for that observation"""
+    sd = vlib.scratch_dir("c20m")
+    sessions = []
+    for k in range(40 if chk.tier == "quick" else 800):
+        ops = []
+        n = rng.rand_range(5, 90)
+        p_fail = rng.pick([10, 50, 90, 97])
+        for _ in range(n):
+            if rng.chance(p_fail, 100):
+                ops.append(rng.pick([("sub", "1.0.5", "1.0.6"), ("sub", "1.0.5", ""), ("svc", "0"), ("svc", "3"), ("svc", "spawn-error"), ("sub", "2.0", "1.0")]))
+            else:
+                ops.append(("sub", "1.0.5", "1.0.5"))
+        if k % 4 == 0:
+            # a long failure run, one success, then a failure / two successes (the shapes the property's sentences are about)
+            ops = [rng.pick([("sub", "1", "2"), ("svc", "spawn-error"), ("svc", "1")]) for _ in range(rng.pick([19, 20, 21, 25]))] + \
+                  [("sub", "1", "1")] + rng.pick([[("svc", "spawn-error")], [("sub", "1", "1")], [("sub", "1", "2"), ("sub", "1", "1"), ("sub", "1", "1")]]) + ops[:10]
+        sessions.append(ops)
+    lines, mlines = [], []
+    for ops in sessions:
+        lines.append("mon new"); mlines.append("health new")
+        for o in ops:
+            if o[0] == "sub":
+                # empty summaries and non-empty ones
+                nc, nf = rng.pick([(0, 0), (0, 0), (1, 1), (3, 0), (0, 2)])
+                lines.append("mon substatus %s %s %d %d" % (o[1] or "-", o[2] or "-", nc, nf))
+                mlines.append("health obs %d" % (1 if (o[1] or "-") == (o[2] or "-") else 0))
+            else:
+                lines.append("mon service " + o[1]); mlines.append("health obs 0")
+    rc, so, se = vlib.run_harness(binp, "health", "\n".join(lines) + "\n", env={"VERIF_SCRATCH": sd})
+    shutil.rmtree(sd, ignore_errors=True)
+    if rc != 0:
+        chk.broken.append({"kind": "harness", "name": "health engine (monitor functions)", "why": se[-600:]})
+        return
+    impl = so.split("\n")[:-1]
+    model = vlib.run_driver(mlines) if dok else None
+    pos = 0
+    for ops in sessions:
+        n = len(ops) + 1
+        io = impl[pos:pos + n]
+        ml = mlines[pos:pos + n]
+        states = [x.split(" ")[0] for x in io]
+        chk.case(nontrivial_key=("monitor", tuple(states[-12:]), len(ops)))
+        chk.count("monitor_function_sessions")
+        chk.count("monitor_function_observations", len(ops))
+        if "error" in states:
+            chk.count("monitor_sessions_reaching_error")
+        # the property's sentences on what was published
+        oracle_health(chk, ml, states)
+        for ln, x in zip(lines[pos:pos + n], io):
+            if ln.startswith("mon service"):
+                t = x.split(" ")
+                if len(t) != 2 or t[0] != t[1]:
+                    chk.violation("the status written for the platform is not the automaton's verdict for that observation",
+                                  {"op": ln, "in_memory": t[0], "written_to_the_status_file": t[1:] and t[1]})
+        if model is not None:
+            mo = model[pos:pos + n]
+            for i in range(n):
+                if mo[i] != states[i]:
+                    chk.disagreement("monitor-functions", {"ops": lines[pos:pos + i + 1][-40:], "index": i}, mo[i], io[i])
+                    break
+        pos += n
+
+
 def run(chk):
     rng = vlib.Rng(chk.seed)
     chk.prove()
@@ -187,6 +255,7 @@ def run(chk):
                 i = next(i for i in range(len(s)) if mo[i] != io[i])
                 chk.disagreement("health" if is_health else "notes", {"ops": s[: i + 1][-60:], "index": i}, mo[i], io[i])
         pos += len(s)
+    monitor_functions(chk, rng, binp, dok)
     chk.count("sessions_reaching_error", errors_reached)
     chk.count("ops_total", len(lines) + len(nlines))
     if errors_reached == 0:
